@@ -6,6 +6,7 @@ import EaselModel.Containers.HeapLemmas
 import EaselModel.Containers.HeapHistory
 import EaselModel.Containers.RedBlackLemmas
 import EaselModel.Containers.RedBlackPtrLemmas
+import EaselModel.Containers.RedBlackPtrInsert
 import EaselModel.Containers.StackLemmas
 import EaselModel.Containers.StackHistory
 import EaselModel.Containers.StackThreadsLemmas
@@ -317,6 +318,13 @@ theorem heap_sorts (isMax : Bool) (vs : List Int) :
   · simpa using (sortedBy_min l).mp h4
   · simpa using (sortedBy_max l).mp h4
 
+/-- DUPLICATE VALUES are kept with their multiplicity: `n` insertions of the same value come out as `n` copies
+    (and mixed with other values each multiplicity is preserved: `l.Perm vs` in `heap_sorts`, the multiset in `heap_history`) -/
+theorem heap_duplicates (isMax : Bool) (v : Int) (n : Nat) :
+    ∃ h l, insertAll (create isMax) (List.replicate n v) = some h ∧ drain h.data.size h = some l ∧ l = List.replicate n v := by
+  obtain ⟨h, l, h1, h2, h3, _⟩ := heapsort_spec isMax (List.replicate n v)
+  exact ⟨h, l, h1, h2, List.perm_replicate.mp h3⟩
+
 /-- … from any valid heap state (any interleaving of inserts and extractions before) -/
 theorem heap_drain (h : Heap.Heap) (hi : Heap.Inv h) :
     ∃ l, drain h.data.size h = some l ∧ l.Perm h.data.toList ∧ SortedBy h.isMax l := drain_spec h hi
@@ -454,6 +462,37 @@ example : Repr (#[⟨5, .black, none, some 1, some 2⟩, ⟨3, .red, some 0, non
 example : (convert (#[⟨5, .black, none, some 1, some 2⟩, ⟨3, .red, some 0, none, none⟩, ⟨8, .red, some 0, none, none⟩] : Store) (some 0)).map
     (fun r => r.map fun (st, h, t) => (h, t, follow st (·.large) 4 t, follow st (·.small) 4 h))
     = some (some (some 2, some 1, [1, 0, 2], [2, 0, 1])) := by decide
+/-- the descent loop of `esl_red_black_doublekey_insert` on any tree laid out in the store: it ends inside the tree; it answers
+    "an equal key exists" exactly when the lookup on the abstract tree finds the key; otherwise it stops at a record of the
+    tree whose child pointer on the key's side is `NULL` (there the new record is attached) -/
+theorem rb_ptr_descend (st : Store) (key : Int) (a : Shape) (i : Nat) (b : Shape) (fuel : Nat)
+    (h : Repr st (.node a i b) (some i)) (hf : (Shape.node a i b).height ≤ fuel) :
+    ∃ r, descend st key fuel i = some r ∧ (r = none ↔ RedBlack.Tree.lookup key (absTree st (.node a i b)) = true) ∧
+      (∀ p, r = some p → p ∈ (Shape.node a i b).ids ∧ ∃ nd, rd st p = some nd ∧ key ≠ nd.key ∧
+        (if key > nd.key then nd.large = none else nd.small = none)) := descend_repr key fuel h hf
+
+/-- DUPLICATE KEY, exactly as the C function answers it: `insert(tree, node)` with a key the tree already holds returns
+    `NULL`; no record of the tree is written (same shape, colours, keys, pointers; the caller's root stays valid); the only
+    write is the reset of the offered record itself (red, no children), which the caller still owns (and may give back to
+    its pool: `rb_pool_never_twice`) -/
+theorem rb_ptr_insert_duplicate (st : Store) (a : Shape) (root : Nat) (b : Shape) (node : Nat) (nn : Node)
+    (hrep : Repr st (.node a root b) (some root)) (hnd : (Shape.node a root b).ids.Nodup)
+    (hnode : node ∉ (Shape.node a root b).ids) (hr : rd st node = some nn)
+    (hdup : RedBlack.Tree.lookup nn.key (absTree st (.node a root b)) = true) :
+    ∃ st', insert st (some root) node = some (st', none) ∧ (∀ j, j ≠ node → rd st' j = rd st j) ∧
+      rd st' node = some { nn with color := .red, small := none, large := none } ∧
+      Repr st' (.node a root b) (some root) ∧ absTree st' (.node a root b) = absTree st (.node a root b) :=
+  insert_duplicate hrep hnd hnode hr hdup
+
+/-- the first record becomes the black root -/
+theorem rb_ptr_insert_first (st : Store) (node : Nat) (nn : Node) (hr : rd st node = some nn) :
+    ∃ st', insert st none node = some (st', some node) ∧ (∀ j, j ≠ node → rd st' j = rd st j) ∧
+      rd st' node = some { nn with color := .black, small := none, large := none } := insert_empty hr
+
+-- non-vacuity: offering a fourth record with key 3 to the three-record tree {5, 3, 8} is refused, the tree is untouched
+example : (insert (#[⟨5, .black, none, some 1, some 2⟩, ⟨3, .red, some 0, none, none⟩, ⟨8, .red, some 0, none, none⟩,
+      ⟨3, .black, none, some 7, some 9⟩] : Store) (some 0) 3).map (fun r => (r.2, (r.1.toList.take 3).map (fun nd => (nd.key, nd.small, nd.large))))
+    = some (none, [(5, some 1, some 2), (3, none, none), (8, none, none)]) := by decide
 end RBPtr
 
 section RB2
